@@ -36,7 +36,9 @@ CHECKS["C16"] = {
  "text": "(a) Bounded symbolic verification (M1, linear integer arithmetic) of the filesystem provider's hash kernel: file length is a z3 integer, reads are index "
          "intervals, blake2b an injective recording stub; hash(info) == hash_data(same bytes) for every content is the validity of 'both interval sequences cover [0,L)' "
          "for every L <= 12293. (b) Exhaustive bounded exploration (M2) of MockProvider against a reference tree: error classes, info/exists/listdir/download agreement, id "
-         "stability, hash == hash_data, events for every mutation, identity check on connect. FileSystemProvider directory operations on a real directory are outside the technique.",
+         "stability, hash == hash_data, events for every mutation, identity check on connect; the real FileSystemProvider's file operations and mtime-keyed hash cache run on a "
+         "real temporary directory under solver-enumerated 4-call sequences (hash reported == hash_data of served bytes after every call). Folder operations and watchdog events of "
+         "the filesystem provider are outside.",
  "technique": "bounded symbolic execution of the hash kernel over z3 integer intervals (QF_LIA validity); solver-enumerated MockProvider call sequences against a reference tree; replay on real files"}
 CHECKS["C19"] = {
  "text": "Exhaustive bounded exploration with solver-enumerated choices (M2) of the real HierarchicalCache: all 2-call (thorough: 3-call on a smaller pool) sequences over 7 operations, "
